@@ -12,35 +12,40 @@ import XrsVerif.Proofs.PolygonizeLosslessB
   else Left), `followLoop`/`follow` (vertex recorded when the heading changes, visited flags), `scan`
   (exterior / hole starts, hole attachment), `polygonizeNumpy` (nx = 1 workaround, transform).
 
-  Proved here, for every raster size, values, mask, region array and start:
-  * `regions_are_components`  `_calculate_regions` (W/S/SW/SE rules, merge lookup with re-linking, compaction):
-                              masked pixels get 0, unmasked pixels a positive id, and two unmasked pixels
-                              get the same id exactly when a chain of 4- (8-) adjacent unmasked pixels with
-                              close values joins them inside the raster (closeness symmetric + transitive,
-                              i.e. integer rasters; needed only for the SW/SE short-cuts);
-  * `follow_invariant`        every state keeps the region on its left and a pixel outside the region (or
-                              outside the raster) on its right;
-  * `follow_axis_parallel`    every iteration moves the current vertex by one unit along the heading:
-                              vertices are pixel corners joined by axis-parallel unit steps;
-  * `follow_step_injective`   the step is injective on boundary-edge states;
-  * `follow_terminates`       started on a boundary edge the follower is back at its start within the fuel
-                              (injective self-map of a finite set, at most 4·nx·ny states);
-  * `hole_start_on_boundary`, `exterior_start_on_boundary`  the states `_scan` starts from are boundary edges
-                              (for exteriors: given that the pixel is the first of its region in scan order);
-  * `vertices_on_corners`     every vertex is an integer point of `[0,nx] × [0,ny]`;
-  * `ring_closed_rectilinear` every returned ring starts and ends at the start vertex and consecutive
-                              vertices share a coordinate;
-  * `transform_every_vertex`  the affine transform is applied to every vertex of every ring, nothing else;
-  * `lossless_partial`        the above assembled for one boundary.
+  Proved here, for every raster size, values, mask and connectivity, no size bound (closeness reflexive,
+  symmetric, transitive -- integer rasters, the property's domain):
+  * `lossless`                **the complete statement**: `scan` succeeds and its result passes `losslessB`, the
+                              decidable formalisation of the whole property (cell assignment by the even-odd
+                              rule; same polygon <-> same connected region; shoelace area = pixel count;
+                              exteriors anticlockwise, holes clockwise; rings closed, on pixel corners,
+                              axis-parallel edges of non-zero length, >= 4 vertices).  `holds_all`: for integer
+                              equality `holds nx ny c8 values mask = true` for every raster.
+  Its clauses in readable form:
+  * `lossless_cells`          masked pixel centre in no polygon; unmasked in exactly one (inside the exterior
+                              ring, inside no hole ring), number `regionId - 1`, with a close value;
+  * `lossless_even_odd`       total crossing parity over all rings of polygon k is odd <-> pixel in region k+1;
+  * `polygons_are_components` polygons <-> connected regions one to one;
+  * `lossless_area_orientation`  sum of shoelace areas = pixel count; exterior anticlockwise, holes clockwise;
+  * `region_ids_first_pixel_ranks`  region ids are the ranks of the first pixels in scan order;
+  * `lossless_numpy`, `lossless_single_column`  the same through `polygonizeNumpy` (nx = 1 workaround);
+  and the building blocks:
+  * `regions_are_components`  `_calculate_regions`: masked pixels get 0, unmasked pixels a positive id, and two
+                              unmasked pixels get the same id exactly when a chain of 4- (8-) adjacent unmasked
+                              pixels with close values joins them;
+  * `follow_invariant`, `follow_axis_parallel`, `follow_step_injective`, `follow_terminates`,
+    `hole_start_on_boundary`, `exterior_start_on_boundary`, `vertices_on_corners`, `ring_closed_rectilinear`,
+    `transform_every_vertex`, `lossless_partial` (one boundary).
 
-  NOT proved (the gap): that the rings, rasterised with the even-odd rule at the pixel centres, give back
-  exactly the regions (a discrete Jordan-curve argument), that the shoelace area equals the pixel count
-  (discrete Green), the orientation claim, that the region ids are the *ranks* of the first pixels (that they
-  are the components is proved), and that `scan` attaches every hole to the right exterior.  The complete statement is `Polygonize.losslessB` (a decidable check of a result against
-  the raster, with connectivity expressed through the C16 labelling whose correctness Props/C16 proves);
-  below it is evaluated by the kernel on concrete rasters (hole, diagonal pinch, mask, single column) and
-  the correspondence run checks it -- through an independent Python oracle -- on the real code for every
-  raster up to 12 pixels over {0,1}, 11 pixels over three symbols, and random larger ones.
+  Proof idea of `lossless` (Proofs/PolygonizeLossless*.lean, no Jordan curve theorem): the states of a followed
+  ring form a list that `step` permutes; winding numbers counted on unit edges (vertical / horizontal ray) agree
+  and are constant on 8-adjacent pixels of the region (the turn-right-first rule at diagonal pinches); the scan
+  invariant shows that every boundary edge whose upper pixel is in the raster lies on exactly one followed cycle,
+  so going up a column the winding number flips exactly where region membership does; discrete Green gives area
+  and orientation.
+
+  What is outside: that the hand model is `polygonize.py` (checked by the correspondence run: exact comparison
+  of region array, column and every vertex on all small rasters and random larger ones, plus an independent
+  oracle); float closeness that is not an equivalence (NaN, inf, tolerances).
 -/
 set_option linter.unusedVariables false
 namespace XrsVerif.C15
@@ -148,8 +153,7 @@ theorem transform_every_vertex {V : Type} (nx ny : Nat) (conn8 : Bool) (close : 
     region on its left and the complement on its right at every step (`follow_invariant`), each step
     being one unit along an axis (`follow_axis_parallel`), no boundary edge being visited twice before
     the return (`follow_step_injective`).
-    The full statement -- `losslessB … = true` for the output of `scan` on every raster -- is not proved;
-    see the header. -/
+    (Superseded by `lossless`, which proves the full statement for every raster.) -/
 theorem lossless_partial (nx ny : Nat) (regs : Nat → Nat) (ij : Nat) (hole : Bool)
     (hstart : Valid (inRegion nx ny regs (regs ij))
       ⟨(ij % nx : Nat), (ij / nx : Nat), if hole then .W else .E⟩) :
@@ -268,6 +272,61 @@ theorem lossless {V : Type} (nx ny : Nat) (conn8 : Bool) (close : V → V → Bo
     sc.ok = true ∧ losslessB nx ny conn8 close values mask sc.column.reverse sc.polys = true :=
   ⟨(scan_cells_lossless nx ny conn8 close values mask hnx hrefl hsymm htrans _ rfl).1,
    scan_losslessB nx ny conn8 close values mask hnx hrefl hsymm htrans _ rfl⟩
+
+/-- `_polygonize_numpy` without a transform: it succeeds and its polygons are integer rings (mapped to
+    rationals) that pass `losslessB` -- for the raster itself if `nx ≠ 1`, for the widened 2-column raster
+    (second column masked out) of the `nx = 1` workaround otherwise -/
+theorem lossless_numpy {V : Type} (nx ny : Nat) (conn8 : Bool) (close : V → V → Bool)
+    (values : Nat → V) (mask : Nat → Bool) (hnx : 0 < nx) (hrefl : ∀ a, close a a = true)
+    (hsymm : ∀ a b, close a b = true → close b a = true)
+    (htrans : ∀ a b c, close a b = true → close b c = true → close a c = true) :
+    let out := polygonizeNumpy nx ny conn8 close values mask none
+    out.ok = true ∧
+    ∃ polysInt : List (List Ring),
+      out.polys = polysInt.map (fun rings => rings.map (fun r => r.map toRat)) ∧
+      (if nx = 1 then
+        losslessB 2 ny conn8 close (fun ij => values (ij / 2))
+          (fun ij => decide (ij % 2 = 0) && mask (ij / 2)) out.column polysInt
+       else losslessB nx ny conn8 close values mask out.column polysInt) = true := by
+  by_cases h1 : nx = 1
+  · have := lossless 2 ny conn8 close (fun ij => values (ij / 2))
+      (fun ij => decide (ij % 2 = 0) && mask (ij / 2)) (by omega) hrefl hsymm htrans
+    simp only [polygonizeNumpy, h1, if_true]
+    exact ⟨this.1, _, rfl, this.2⟩
+  · have := lossless nx ny conn8 close values mask hnx hrefl hsymm htrans
+    simp only [polygonizeNumpy, h1, if_false]
+    exact ⟨this.1, _, rfl, this.2⟩
+
+/-- the `nx = 1` workaround, cell assignment for the single column itself: pixel `Y` lies in no polygon if
+    masked, in exactly one polygon -- with a close value -- otherwise -/
+theorem lossless_single_column {V : Type} (ny : Nat) (conn8 : Bool) (close : V → V → Bool)
+    (values : Nat → V) (mask : Nat → Bool) (hrefl : ∀ a, close a a = true)
+    (hsymm : ∀ a b, close a b = true → close b a = true)
+    (htrans : ∀ a b c, close a b = true → close b c = true → close a c = true) :
+    let out := polygonizeNumpy 1 ny conn8 close values mask none
+    let sc := scan 2 ny conn8 close (fun ij => values (ij / 2)) (fun ij => decide (ij % 2 = 0) && mask (ij / 2))
+    out.ok = true ∧ out.column = sc.column.reverse ∧
+    out.polys = sc.polys.map (fun rings => rings.map (fun r => r.map toRat)) ∧
+    out.column.length = sc.polys.length ∧
+    ∀ Y : Nat, Y < ny →
+      (mask Y = false → ∀ k, k < sc.polys.length → inPolygon (sc.polys.getD k []) 0 (Y : Int) = false) ∧
+      (mask Y = true → ∃ k, k < sc.polys.length ∧
+          (∀ k', k' < sc.polys.length → (inPolygon (sc.polys.getD k' []) 0 (Y : Int) = true ↔ k' = k)) ∧
+          ∃ v, out.column[k]? = some v ∧ close v (values Y) = true) := by
+  intro out sc
+  have h := lossless_cells 2 ny conn8 close (fun ij => values (ij / 2))
+    (fun ij => decide (ij % 2 = 0) && mask (ij / 2)) (by omega) hrefl hsymm htrans
+  obtain ⟨h1, h2, h3⟩ := h
+  refine ⟨h1, rfl, rfl, by show sc.column.reverse.length = _; rw [List.length_reverse]; exact h2, ?_⟩
+  intro Y hY
+  have := h3 0 Y (by omega) hY
+  have e1 : (0 + Y * 2) % 2 = 0 := by omega
+  have e2 : (0 + Y * 2) / 2 = Y := by omega
+  simp only [e1, e2, decide_true, Bool.true_and] at this
+  obtain ⟨a, b⟩ := this
+  refine ⟨fun hm k hk => a hm k hk, fun hm => ?_⟩
+  obtain ⟨k, hk, _, hk2, v, hv, hc⟩ := b hm
+  exact ⟨k, hk, hk2, v, hv, hc⟩
 
 /-! ### non-vacuity, and the full statement evaluated on concrete rasters -/
 
